@@ -4,7 +4,7 @@ Require Lex.
 Require LexQuote LexField LexEscape PgQuote PgIdent.
 Require Import Render Printer QuotePipeline EscapePipeline.
 Require Import QuerySem SqlSem SqlFrag SqlFragP SqlSucceeds QuoteE2E.
-Require SqlQueryText Api LexWs LexWsG QuoteText LexEscapeU QuoteTextU.
+Require SqlQueryText Api LexWs LexWsG QuoteText LexEscapeU QuoteTextU EscapeBare.
 From Coq Require Import List String Ascii NArith ZArith.
 Import ListNotations.
 
@@ -296,6 +296,23 @@ Theorem C08_escaped_text_to_parameter_any_script :
     forall r : row, ssem r [RStr ws] (past fs) = qsem r (qtree fs ws).
 Proof. exact QuoteTextU.to_param_postgres_on_escaped_value_u. Qed.
 
+(* the property's own wording, for a BARE word without a field: Parse(esc(w)) is the plain (non-pattern) string leaf w *)
+Theorem C08_escaped_bare_word_is_the_plain_value_any_script :
+  forall (o : oracle) (cl : Lex.classes),
+  Lex.is_letter cl 34%N = false /\ Lex.is_digit cl 34%N = false ->
+  Lex.is_letter cl 58%N = false /\ Lex.is_digit cl 58%N = false ->
+  Lex.is_letter cl 92%N = false /\ Lex.is_digit cl 92%N = false ->
+  (forall r, Lex.is_space r = true -> Lex.is_alnum cl r = false) ->
+  Lex.is_alnum cl Lex.rune_error = false ->
+  forall (d0 : ascii) (w : list ascii),
+  Lex.word_type (Escape.esc cl (d0 :: w)) = TLiteral ->
+  forallb (fun c => negb (Ascii.eqb c "\"%char)) (d0 :: w) = true ->
+  let ws := string_of_list_ascii (d0 :: w) in let es := string_of_list_ascii (Escape.esc cl (d0 :: w)) in
+  contains_char "*"%char ws = false -> contains_char "?"%char ws = false ->
+  atoi es = None -> match parse_float o es with Some x => is_nan_or_inf o x = true | None => True end ->
+  Api.parse o cl "" es = PTree (lit (VStr ws)).
+Proof. exact EscapeBare.parse_of_escaped_bare_word. Qed.
+
 (* the premises are met by a text with two-byte letters, an invalid byte, brackets, blanks and a colon:  caf<C3 A9> (<FF>) <C3 AF>:x
    under a classifier that calls every rune from U+0080 on except U+FFFD a letter; its escaped spelling is computed *)
 Example c08_any_script_premises_are_met :
@@ -335,3 +352,4 @@ Print Assumptions C08_escaped_spelling_any_script_adds_no_wildcard.
 Print Assumptions C08_escaped_spelling_any_script_is_the_ascii_one_on_ascii.
 Print Assumptions C08_escaped_text_to_rows_any_script.
 Print Assumptions C08_escaped_text_to_parameter_any_script.
+Print Assumptions C08_escaped_bare_word_is_the_plain_value_any_script.
